@@ -527,3 +527,45 @@ def array_safe(ctx, qualname, par, opaque=()):
         if not scalar:
             bad += [d for d in deps if d not in bad]
     return not bad, bad
+
+
+def check_bubble_threshold(ctx, rule, quals):
+    """One bubble point in floating point: every scalar comparison of `pressure` made by the listed functions (and the
+    package functions they call) is against the value *returned by pressure_bubblepoint_Standing* for the function's own
+    fluid description - not against an algebraically equal re-derivation, which rounds differently: at the library's
+    bubble-point pressure the two then disagree on which side of the branch the point lies."""
+    PBQ = OIL + "pressure_bubblepoint_Standing"
+    n = 0
+    for q in quals:
+        f = ctx.P.func(q)
+        ctx.touch(q)
+        it = interp(ctx, opaque={PBQ})
+        other = set()
+        for p in it.run_function(q):
+            for k, _c, _d in cmp_decisions(p, "pressure"):
+                d = nf.unkey(k[1])
+                # d == +-(pressure - threshold): remove the pressure term
+                try:
+                    coef = nf.diff(d, "pressure")
+                except nf.NFError:
+                    other.add(nf.show(d, 100) + " (pressure inside an opaque term)")
+                    continue
+                if not nf.is_const(coef) or not coef:
+                    other.add(nf.show(d, 100) + " (not linear in pressure)")
+                    continue
+                thr = nf.neg(nf.div(nf.sub(d, nf.mul(coef, nf.sym("pressure"))), coef))
+                a = it.single_atom(thr)
+                if a is not None and a[0] == "fn" and a[1] == PBQ:
+                    args = [nf.unkey(x) for x in a[2]]
+                    if all(it.single_atom(x) is not None and it.single_atom(x)[0] == "sym" for x in args):
+                        continue
+                if nf.is_const(thr):
+                    continue  # a fixed validity limit, not the bubble point
+                other.add(nf.show(thr, 120))
+        n += 1
+        ctx.check(
+            not other, rule, q + ":branch threshold is the library's bubble point", f.where(),
+            "every comparison of pressure with the bubble point uses the value pressure_bubblepoint_Standing returns for the function's own arguments (one rounding of p_b for the whole library)",
+            signature="threshold " + "; ".join(sorted(other))[:140], thresholds=sorted(other)[:4],
+        )
+    return n
